@@ -434,6 +434,9 @@ BTreeItems_subscript(BTreeItems *self, PyObject* subscript)
 {
     Py_ssize_t len = BTreeItems_length_or_nonzero(self, 0);
 
+    if (len < 0)    /* a bucket could not be loaded */
+        return NULL;
+
     if (PyIndex_Check(subscript))
     {
         Py_ssize_t i = PyNumber_AsSsize_t(subscript, PyExc_IndexError);
